@@ -10,7 +10,7 @@ from . import qprops
 from .codec import Some, opt, plain
 from .core import Plugin, ROOT
 
-LOADERS = ["records", "epm", "prefix_map", "priority", "reverse", "jsonld", "upgrade"]
+LOADERS = ["records", "epm", "prefix_map", "priority", "reverse", "jsonld", "upgrade", "records_reused"]
 
 
 def rec_to_dict(r):
@@ -27,9 +27,9 @@ def rec_to_dict(r):
 
 def gen_input(rng: random.Random, tag: int, clash: bool):
     n = rng.choice([0, 1, 2, 3, 4, 6, 10]) if rng.random() < 0.93 else rng.randint(40, 120)
-    if tag in (0, 1):
+    if tag in (0, 1, 7):
         recs = qprops.gen_records(rng, n, strict_ok=not clash)
-        if tag == 0:
+        if tag in (0, 7):
             # Record(...) must be constructible for Converter(records): no self duplicates
             for r in recs:
                 r[2] = [x for x in r[2] if x != r[0]]
@@ -109,6 +109,8 @@ def load(tag, data, d):
 
     if tag == 0:
         return Converter(qprops.mk_records(data), delimiter=d)
+    if tag == 7:
+        return Converter(reused_records(data)[0], delimiter=d)
     if tag == 1:
         return Converter.from_extended_prefix_map([rec_to_dict(r) for r in data], delimiter=d)
     if tag == 2:
@@ -122,6 +124,25 @@ def load(tag, data, d):
     if tag == 6:
         return Converter(curies.upgrade_prefix_map(dict(map(tuple, data))), delimiter=d)
     raise ValueError(tag)
+
+
+def reused_records(data):
+    """Record objects with a history: built with half of their synonyms, used in a strict converter (whatever the library
+    derives from a record on first use is derived now), then extended to the full synonym lists by the public merge path
+    add_prefix(..., merge=True) -- the way synonyms arrive in practice.  Returns (objects, their current contents)."""
+    from curies import Converter, Record
+
+    objs = qprops.mk_records([[p, u, list(ps[: len(ps) // 2]), list(us[: len(us) // 2]), pat] for p, u, ps, us, pat in data])
+    dummy = Record(prefix="\uf8ffdummy", uri_prefix="\uf8ffdummy://")
+    for o, (p, u, ps, us, pat) in zip(objs, data):
+        try:
+            Converter([o, dummy])
+            c1 = Converter([o])
+            c1.add_prefix(p, u, prefix_synonyms=list(ps), uri_prefix_synonyms=list(us), merge=True)
+        except Exception:
+            pass
+    now = [[o.prefix, o.uri_prefix, list(o.prefix_synonyms), list(o.uri_prefix_synonyms), opt(o.pattern)] for o in objs]
+    return objs, now
 
 
 def jsonld_obj(data):
@@ -153,6 +174,12 @@ def observe_load(case, files=False):
     import pydantic
 
     (tag, data), d, strs, pairs = case
+    if tag == 7:
+        try:
+            data = reused_records(data)[1]   # the model judges the records by what they contain when the constructor sees them
+            case = [[tag, data], d, strs, pairs]
+        except pydantic.ValidationError:
+            return case, [4, [], []]
     try:
         c = load(tag, data, d)
     except curies.DuplicateURIPrefixes as e:
@@ -194,12 +221,12 @@ class LoadPlugin(Plugin):
 
     def generate(self, rng, n):
         for _ in range(n):
-            tag = rng.randrange(7)
+            tag = rng.choice([0, 1, 2, 3, 4, 5, 6, 7, 7])
             clash = rng.random() < self.clash_rate
             data = gen_input(rng, tag, clash)
             d = rng.choice([":", ":", ":", "/", "_"])
             recs_like = []
-            if tag in (0, 1):
+            if tag in (0, 1, 7):
                 recs_like = data
             elif tag in (2, 6):
                 recs_like = [[p, u, [], [], None] for p, u in data]
@@ -242,7 +269,8 @@ class C04(LoadPlugin):
     prop = 4
     clash_rate = 0.55
     counts = {"quick": 2500, "thorough": 80000}
-    rule = ("case = (loader in {Converter(records), extended prefix map, prefix map, priority map, reverse map, JSON-LD, upgrade_prefix_map}, input, "
+    rule = ("case = (loader in {Converter(records), Converter(Record objects that were used by another converter and then extended through "
+            "add_prefix(merge=True)), extended prefix map, prefix map, priority map, reverse map, JSON-LD, upgrade_prefix_map}, input, "
             "delimiter, probes); 55 % of the inputs carry an injected clash (canonical/canonical, canonical/synonym, synonym/synonym on the CURIE "
             "side, the URI side, both sides at once, or a record listing its own canonical prefix as a synonym), 7 % have 40-120 entries. "
             "Observed: success, or the exception class with its listing of (record_1.prefix, record_2.prefix, clashing string); on success bimap, "
